@@ -48,7 +48,7 @@ type abortPath struct{}
 
 // Config are the per-harness knobs of one exploration.
 type Config struct {
-	Preemptions       int      // preemption bound P
+	Preemptions       int      // delay bound: number of deviations from the deterministic round-robin scheduler
 	Unwind            int      // max visits of one block per frame
 	MaxDepth          int      // max call depth
 	MaxInstr          int64    // instruction budget per path
@@ -59,6 +59,7 @@ type Config struct {
 	DeadlockIsFinding bool     // a state with no runnable goroutine while main is unfinished is a violation
 	HB                bool     // happens-before race monitor
 	Trace             bool
+	MainFirst         bool // base schedule prefers the harness goroutine (the caller of the API under test) whenever it is enabled
 	Params            map[string]int // harness size parameters (verifrt.Param)
 	Redirects         map[string]string // callee name -> "import/path.Func" executed instead ("" = return zero values)
 
@@ -92,6 +93,8 @@ type interpreter struct {
 	gs          []*goroutine
 	cur         *goroutine
 	preemptions int
+	lastRun     *goroutine
+	inQuiet     int
 	aborting    bool
 	timers      []*timer
 	now         int64
@@ -604,6 +607,11 @@ func callSSA(i *interpreter, caller *frame, callpos token.Pos, fn *ssa.Function,
 			return ext(fr, args)
 		}
 		if fn.Blocks == nil {
+			if o := fn.Origin(); o != nil {
+				if ext := externals[i.ld.fnName(o)]; ext != nil {
+					return ext(fr, args)
+				}
+			}
 			// generic instantiation wrappers and synthetic thunks have
 			// bodies; anything else is code below the cut line.
 			return i.unstubbed(fr, fn, args)
